@@ -181,6 +181,21 @@ func c06scenarios(probe string) []c06scn {
 		files := map[string]string{"x/v1/t.go": "package v1\n\ntype T struct{}\n", "y/v1/t.go": "package v1\n\ntype T struct{}\n", "use/use.go": src("use"), "use2/use.go": src("use2")}
 		out = append(out, c06scn{"one file per interface, imports and parameter names that collide across files", files, cfg})
 	}
+	{ // ONE type expression that mentions several packages of the same name, none of them imported earlier in the
+		// file (one output file per interface): which package keeps the plain name and which gets the numbered alias
+		// follows the order of appearance in the type, run after run
+		cfg := testifyRoot()
+		cfg["all"] = true
+		cfg["formatter"] = "noop"
+		cfg["filename"] = "mock_{{.InterfaceName}}_test.go"
+		cfg["packages"] = core.M{P("use"): core.M{}, P("use2"): core.M{"config": core.M{"template": "matryer"}}}
+		src := func(pkg string) string {
+			return "package " + pkg + "\n\nimport (\n\tx \"example.com/m/x/v1\"\n\ty \"example.com/m/y/v1\"\n\tz \"example.com/m/z/v1\"\n)\n\n" +
+				"type MapKV interface{ B(m map[z.T]x.T) }\n\ntype FuncSig interface{ C(f func(y.T, z.T) (x.T, error)) }\n\ntype Nested interface{ D() map[y.T][]func(x.T) z.T }\n\ntype StructF interface{ E(s struct{ A z.T; B y.T; C x.T }) }\n"
+		}
+		files := map[string]string{"x/v1/t.go": "package v1\n\ntype T struct{}\n", "y/v1/t.go": "package v1\n\ntype T struct{}\n", "z/v1/t.go": "package v1\n\ntype T struct{}\n", "use/use.go": src("use"), "use2/use.go": src("use2")}
+		out = append(out, c06scn{"one type expression mentioning three same-named packages, one file per interface", files, cfg})
+	}
 	{ // many interfaces per source file and per output file, several packages: the order of the mocks inside a file
 		// is the declaration order, whatever order the packages were loaded or visited in
 		cfg := testifyRoot()
